@@ -433,6 +433,64 @@ def shadow_scenarios():
     return cases
 
 
+def cells_shadow_scenarios():
+    """The same family with a CELLS as the thing that starts / stops hiding the model-level reference `r` in `S`
+    (a cells comes before every reference in a namespace).  `new_cells` / `rename` to a name the namespace binds are
+    refused, so the cells `r` exists BEFORE the model-level reference (`model.r = v` looks at no member of any
+    space) - in `B`, or in `A` above `B` - and reaches `S` only by DERIVATION: `S.add_bases(B)`,
+    `new_space(bases=[B])`, `B.add_bases(A)` with `S` already below `B` (created in a base of `S`); it stops hiding
+    when the base is removed, the definer deleted or renamed, the base space deleted.  Readers of `r` as seen from
+    `S`: bare (`S.f`), `_space.r` (`S.g`), `S.r` from `T` (`T.c`), `S2.r` (`T.c2`), `T.d` calling `T.c`; cached /
+    uncached; everything evaluated before and after every step of the edit sequence."""
+    F = lambda i, k=1, a="f", r="r", c="S": (i, k, a, r, c)     # noqa
+    EA = ["evalall"]
+    edits = [
+        [["add_bases", "S", ["B"]]],
+        [["add_bases", "S", ["B"]], EA, ["remove_bases", "S", ["B"]]],
+        [["add_bases", "S", ["B"]], EA, ["del_cells", "DEF", "r"]],
+        [["add_bases", "S", ["B"]], EA, ["rename_cells", "DEF", "r", "q"]],
+        [["add_bases", "S", ["B"]], EA, ["set_mref", "r", 9], EA, ["remove_bases", "S", ["B"]]],
+        [["add_bases", "S", ["B"]], EA, ["del_mref", "r"], EA, ["set_mref", "r", 4], EA, ["del_cells", "DEF", "r"]],
+        [["add_bases", "S", ["B"]], EA, ["del_space", "B"]],
+        [["add_bases", "S", ["B"]], EA, ["set_formula", "DEF", "r", F(0, 8, "r")]],
+        [["new_space", "-", "S3", ["B"]]],
+        [["new_space", "S", "Y", ["B"]]],
+        [["add_bases", "S2", ["B"]]],
+        [["add_bases", "S2", ["B"]], ["add_bases", "S", ["S2"]], EA, ["remove_bases", "S2", ["B"]]],
+        [["new_cells", "S", "r", F(0, 3, "r")]],                    # refused: the namespace of S binds `r`
+        [["set_ref", "S", "r", 7], EA, ["add_bases", "S", ["B"]]],  # an own reference, then the cells: refused (conflict)
+    ]
+    # "created in a base of S": S is below B from the start, the cells arrives in B (and S) when B gets the base A
+    below = [
+        [["add_bases", "B", ["A"]]],
+        [["add_bases", "B", ["A"]], EA, ["remove_bases", "B", ["A"]]],
+        [["add_bases", "B", ["A"]], EA, ["del_cells", "A", "r"]],
+        [["add_bases", "B", ["A"]], EA, ["remove_bases", "S", ["B"]]],
+        [["add_bases", "B", ["A"]], EA, ["del_space", "A"]],
+    ]
+    cases = []
+    for cached in (1, 0):
+        for definer in ("B", "A", "below"):
+            base = [["new_space", "-", "B", []]]
+            if definer == "B":
+                base += [["new_cells", "B", "r", F(0, 5, "r")]]
+            elif definer == "A":
+                base += [["new_space", "-", "A", []], ["new_cells", "A", "r", F(0, 5, "r")], ["add_bases", "B", ["A"]]]
+            else:
+                base += [["new_space", "-", "A", []], ["new_cells", "A", "r", F(0, 5, "r")]]
+            base += [["set_mref", "r", 1], ["new_space", "-", "S", ["B"] if definer == "below" else []],
+                     ["new_space", "-", "S2", []], ["new_space", "-", "T", []],
+                     ["set_ref", "T", "S", ("obj", "S")], ["set_ref", "T", "S2", ("obj", "S2")],
+                     ["new_cells", "S", "f", F(2)], ["new_cells", "S", "g", F(16)], ["new_cells", "T", "c", F(3)],
+                     ["new_cells", "T", "c2", F(3, 1, "f", "r", "S2")], ["new_cells", "T", "d", F(1, 1, "c")]]
+            if not cached:
+                base += [["set_cached", "S", "g", 0], ["set_cached", "T", "c", 0]]
+            for e in (below if definer == "below" else edits):
+                e = [[definer if x == "DEF" else x for x in o] for o in e]
+                cases.append([list(o) for o in base] + [["evalall"]] + [list(o) for o in e] + [["evalall"]])
+    return cases
+
+
 def run_history(ops, out, stats, objrefs=False):
     from . import struct_props as S
     from .impl import close_all
@@ -472,6 +530,11 @@ def run_family(ctx, out, n_quick=90, n_thorough=2500, ops_range=(14, 30)):
     for ops in shadow_scenarios():
         run_history(ops, out, stats, objrefs=True)
         stats["edit_shadow_scenarios"] += 1
+        if out.disagreements:
+            return stats
+    for ops in cells_shadow_scenarios():
+        run_history(ops, out, stats, objrefs=True)
+        stats["edit_cells_shadow_scenarios"] += 1
         if out.disagreements:
             return stats
     for i in range(ctx.n(n_quick, n_thorough)):
